@@ -112,6 +112,7 @@ type HarnessResult struct {
 	Samples     []interface{}
 	Spawns      []string
 	distinctIDs map[string]bool
+	reachIDs    map[string]bool
 }
 
 var (
@@ -455,6 +456,7 @@ func (r *runner) runCase(job caseJob, solver *Solver) {
 		for _, ip := range u.Init {
 			ex.runInit(st, r.byPath[ip])
 		}
+		ex.panics, ex.unwinds, ex.blocks, ex.steps = nil, nil, nil, 0
 		ex.callFunction(st, fn, nil, nil, 0)
 	}()
 	// enqueue sibling cases discovered on this path
@@ -594,13 +596,17 @@ func (r *runner) discharge(h *HarnessCfg, res *HarnessResult, ex *Exec, solver *
 		v := solver.CheckSat(20000, a.PC)
 		r.mu.Lock()
 		res.Reaches++
+		if res.reachIDs == nil {
+			res.reachIDs = map[string]bool{}
+		}
 		if v == "sat" {
 			res.ReachSat++
+			res.reachIDs[a.ID] = true
 			if len(res.Samples) < 6 {
 				res.Samples = append(res.Samples, map[string]string{"witness": a.ID, "case": a.Case, "pos": a.Pos})
 			}
-		} else {
-			res.Inconclusive = append(res.Inconclusive, fmt.Sprintf("reachability witness %s {%s} is %s (vacuous harness)", a.ID, a.Case, v))
+		} else if !res.reachIDs[a.ID] {
+			res.reachIDs[a.ID] = false
 		}
 		r.mu.Unlock()
 	}
@@ -618,6 +624,7 @@ func (r *runner) discharge(h *HarnessCfg, res *HarnessResult, ex *Exec, solver *
 	res.Blocks += len(ex.blocks)
 	r.mu.Unlock()
 	if h.CheckPanics {
+		var evs []Event
 	nextPanic:
 		for _, e := range ex.panics {
 			for _, ig := range h.PanicIgnore {
@@ -625,16 +632,70 @@ func (r *runner) discharge(h *HarnessCfg, res *HarnessResult, ex *Exec, solver *
 					continue nextPanic
 				}
 			}
-			r.mu.Lock()
-			res.PanicsChecked++
-			r.mu.Unlock()
-			check("panic", "panic:"+e.Kind+"@"+shortPos(e.Pos), e.Pos, e.Case, e.PC)
+			evs = append(evs, e)
 		}
+		r.mu.Lock()
+		res.PanicsChecked += len(evs)
+		r.mu.Unlock()
+		r.batchCheck(h, res, ex, solver, "panic", evs, check, timeout)
 	}
 	if h.CheckBlocks {
-		for _, e := range ex.blocks {
-			check("block", "block:"+e.Kind+"@"+shortPos(e.Pos)+"[held:"+e.Msg+"]", e.Pos, e.Case, e.PC)
+		r.batchCheck(h, res, ex, solver, "block", ex.blocks, check, timeout)
+	}
+}
+
+func eventID(kind string, e Event) string {
+	if kind == "block" {
+		return "block:" + e.Kind + "@" + shortPos(e.Pos) + "[held:" + e.Msg + "]"
+	}
+	return "panic:" + e.Kind + "@" + shortPos(e.Pos)
+}
+
+// batchCheck discharges many "must be unreachable" events with one query on their disjunction; when it is
+// satisfiable the events true under the model are checked individually (and reported), the rest re-batched.
+func (r *runner) batchCheck(h *HarnessCfg, res *HarnessResult, ex *Exec, solver *Solver, kind string, evs []Event, check func(kind, id, pos, cas string, q *Term), timeout int) {
+	reported := map[string]bool{}
+	for round := 0; round < 12 && len(evs) > 0; round++ {
+		disj := False
+		for _, e := range evs {
+			disj = Or(disj, e.PC)
 		}
+		if disj.IsFalse() {
+			return
+		}
+		v := solver.CheckSat(timeout*1000, disj)
+		if v == "unsat" {
+			return
+		}
+		// find candidates: check individually, cheapest first (those true under a cached model)
+		var rest []Event
+		found := false
+		for _, e := range evs {
+			id := eventID(kind, e)
+			if reported[id] {
+				continue
+			}
+			if !found && solver.modelSat(e.PC) {
+				check(kind, id, e.Pos, e.Case, e.PC)
+				reported[id] = true
+				found = true
+				continue
+			}
+			rest = append(rest, e)
+		}
+		if !found {
+			// no model available (unknown verdict or UF terms): fall back to individual checks
+			for _, e := range rest {
+				id := eventID(kind, e)
+				if reported[id] {
+					continue
+				}
+				reported[id] = true
+				check(kind, id, e.Pos, e.Case, e.PC)
+			}
+			return
+		}
+		evs = rest
 	}
 }
 
@@ -721,6 +782,11 @@ func (r *runner) report(prop, tier string, hs []*HarnessCfg, wall, loadS float64
 		}
 		for _, m := range res.Inconclusive {
 			inconcl = append(inconcl, h.Name+": "+m)
+		}
+		for id, ok := range res.reachIDs {
+			if !ok {
+				inconcl = append(inconcl, h.Name+": reachability witness "+id+" is not satisfiable in any case (vacuous harness)")
+			}
 		}
 		samples = append(samples, res.Samples...)
 		// dedupe violations by signature
